@@ -1740,6 +1740,23 @@ fn cover_proj(profile: &str, p: &Pools, rng: &mut Rng, out: &mut Vec<String>, pi
                     }
                 }
             }
+            // two dimensions, exact: every 2-D entry point (the random part above reaches each only now and then)
+            for _ in 0..3 {
+                let u = uv2(p, rng);
+                let dir = Vector2::new(u.x, u.y) * small_pos(rng);
+                let up = loop { let up = rv2(rng); if up.perp_dot(dir).n != 0 { break up; } };
+                let eye = Point2::from_vec(rv2(rng));
+                emit1("look_at2", vec![t("Matrix2"), Val::V2(dir), Val::V2(up)], out, pid);
+                emit1("rot_look_at", vec![t("Basis2"), Val::V2(dir), Val::V2(up)], out, pid);
+                for ty in ["Matrix2", "Basis2"] { for fl in [false, true] { emit1("look_at_stable", vec![t(ty), Val::V2(dir), Val::B(fl)], out, pid); } }
+                for ty in ["Matrix3_2", "Dec2"] { for form in ["dep", "rh", "lh"] {
+                    let mut pb = PB::new();
+                    let a = [pb.load(t(ty)), pb.load(Val::P2(eye)), pb.load(Val::P2(eye + dir)), pb.load(Val::V2(up))];
+                    pb.call("tf_look_at", form, &a);
+                    *pid += 1;
+                    if let Some(s) = pb.finish(*pid, &["Q", "f64"]) { out.push(s); }
+                } }
+            }
             // two dimensions: Matrix2 / Basis2 look_at with dir and up over many orders of magnitude
             for kind in ["Matrix2", "Basis2"] { for (ue, de) in [(0i64, 0i64), (-9, -9), (-9, 0), (0, -9), (-17, 0), (-12, -12), (9, 9), (-30, 3)] { for _ in 0..2 {
                 let iv2 = |rng: &mut Rng| Vector2::new(Q::int(rng.range(-6, 6) as i128), Q::int(rng.range(-6, 6) as i128));
